@@ -244,6 +244,10 @@ def parse_into_datetime(
     if isinstance(value, dt.date):
         if hasattr(value, 'hour'):
             ts = value
+            if ts.tzinfo is None or ts.tzinfo.utcoffset(ts) is None:
+                # timezone-naive; assume UTC (as format_datetime() does), so
+                # that the value compares equal to itself after a round trip
+                ts = pytz.utc.localize(ts)
         else:
             # Add a time component
             ts = dt.datetime.combine(value, dt.time(0, 0, tzinfo=pytz.utc))
